@@ -9,14 +9,14 @@ Spells == {"plain", "backslash"}
 (* where the first foreign call runs: in the module function, inside a bytecode function called from it, or as the last
    instruction before `ret` of such a function (its result / error then crosses a bytecode call boundary); what the program
    prints does not depend on it *)
-Wheres == {"module", "fn", "tail"}
+Wheres == {"module", "fn", "tail", "module_tail"}
 Init == args = <<>> /\ call = "" /\ call2 = "" /\ args2 = <<>> /\ spell = "plain" /\ where = "module" /\ done = FALSE
 Next == \/ (~done /\ Len(args) < MaxLen /\ \E v \in ValIdx : args' = Append(args, v) /\ UNCHANGED <<call, call2, args2, spell, where, done>>)
         \/ (~done /\ \E f \in Calls, sp \in Spells, w \in Wheres : call' = f /\ spell' = sp /\ where' = w /\ done' = TRUE /\ UNCHANGED <<args, call2, args2>>)
         \/ (~done /\ Len(args) <= 2 /\ \E f \in Calls \ {"probe_fail", "missing_symbol", "missing_library"}, f2 \in Calls, a2 \in {<<>>, <<6>>} :
               call' = f /\ call2' = f2 /\ args2' = a2 /\ done' = TRUE /\ UNCHANGED <<args, spell, where>>)
 (* the property on the specification: after a failed call nothing more is printed *)
-NoOutputAfterFailure == done => LET e == Expected([args |-> args, call |-> call, call2 |-> call2, args2 |-> args2]) IN
+NoOutputAfterFailure == done => LET e == Expected([args |-> args, call |-> call, call2 |-> call2, args2 |-> args2, where |-> where]) IN
                                  e.status = "failed" => (\A k \in 1..Len(e.out) : e.out[k] # "after")
 EmitCase == done => PrintT("CASE " \o ToJson([args |-> args, call |-> call, call2 |-> call2, args2 |-> args2, spell |-> spell, where |-> where,
                                                vals |-> [k \in 1..Len(args) |-> Vals[args[k]]], vals2 |-> [k \in 1..Len(args2) |-> Vals[args2[k]]]]))
